@@ -721,6 +721,8 @@ func (m *Message) UpdateID(newID MessageID) error {
 			if nodeInt.hasParentBus() {
 				nodeInt.parentBus.messageStaticCANIDs.remove(m.staticCANID)
 			}
+
+			nodeInt.sentMessageIDs.add(newID, m.entityID)
 		} else {
 			nodeInt.sentMessageIDs.modifyKey(m.id, newID, m.entityID)
 		}
@@ -780,6 +782,10 @@ func (m *Message) SetStaticCANID(staticCANID CANID) error {
 		} else {
 			nodeInt.sentMessageIDs.remove(m.id)
 			nodeInt.sentMessageStaticCANIDs.add(staticCANID, m.entityID)
+
+			if nodeInt.hasParentBus() {
+				nodeInt.parentBus.messageStaticCANIDs.add(staticCANID, m.entityID)
+			}
 		}
 	}
 
